@@ -13,6 +13,7 @@ import (
 	"github.com/rigochain/rigo-go/types"
 	"github.com/rigochain/rigo-go/zzverif"
 	abcitypes "github.com/tendermint/tendermint/abci/types"
+	tmjson "github.com/tendermint/tendermint/libs/json"
 	tmtypes "github.com/tendermint/tendermint/types"
 )
 
@@ -161,7 +162,7 @@ func zzSetup(attack bool) *zzScenario {
 	}
 	n.begin(0, votes, nil)
 	if sc.typ == ctrlertypes.TRX_VOTING {
-		opt := []byte(`{"slashRatio":"60"}`)
+		opt := zzGovOption("prelude.opt")
 		start := int64(4)
 		period := govp.MinVotingPeriodBlocks()
 		pl := &ctrlertypes.TrxPayloadProposal{Message: "m", StartVotingHeight: start, VotingPeriodBlocks: period,
@@ -198,7 +199,7 @@ func (sc *zzScenario) nondetTx(attack bool) {
 		t.to = []int{-1, 1}[zzverif.Choose("tx.to", 2)]
 		t.payload = &ctrlertypes.TrxPayloadProposal{Message: "m", StartVotingHeight: zzverif.NondetI64In("tx.start", 0, 1<<41),
 			VotingPeriodBlocks: zzverif.NondetI64In("tx.period", 0, 1<<41), ApplyingHeight: zzverif.NondetI64In("tx.applying", 0, 1<<43),
-			OptType: proposal.PROPOSAL_GOVPARAMS, Options: [][]byte{[]byte(`{"slashRatio":"60"}`)}}
+			OptType: proposal.PROPOSAL_GOVPARAMS, Options: [][]byte{zzGovOption("tx.opt")}}
 	case ctrlertypes.TRX_VOTING:
 		t.to = []int{-1, 1}[zzverif.Choose("tx.to", 2)]
 		h := sc.propHash
@@ -240,6 +241,28 @@ func (sc *zzScenario) nondetTx(attack bool) {
 	sc.raw = n.encode(t)
 	sc.txHash = tmtypes.Tx(sc.raw).Hash()
 	sc.frozenKeys = append(sc.frozenKeys, sc.txHash)
+}
+
+// zzGovOption is a proposal option: a governance-parameter document that sets
+// the slash ratio only.
+func zzGovOption(tag string) []byte {
+	bz, err := tmjson.Marshal(ctrlertypes.ZZSymGovParams(tag, 1<<16))
+	if err != nil {
+		panic(err)
+	}
+	return bz
+}
+
+var zzTypeName = map[int32]string{ctrlertypes.TRX_TRANSFER: "transfer", ctrlertypes.TRX_STAKING: "staking", ctrlertypes.TRX_UNSTAKING: "unstaking",
+	ctrlertypes.TRX_PROPOSAL: "proposal", ctrlertypes.TRX_VOTING: "voting", ctrlertypes.TRX_SETDOC: "setdoc", ctrlertypes.TRX_WITHDRAW: "withdraw", ctrlertypes.TRX_CONTRACT: "contract"}
+
+// reachOutcome leaves a vacuity witness per transaction type and outcome.
+func (sc *zzScenario) reachOutcome(code uint32) {
+	if code == 0 {
+		zzverif.Reach("ok " + zzTypeName[sc.typ])
+	} else {
+		zzverif.Reach("rejected " + zzTypeName[sc.typ])
+	}
 }
 
 func (sc *zzScenario) fee() *uint256.Int {
